@@ -8,20 +8,44 @@
 (* formulas (queries, adjacency order, data, removals) are tagged          *)
 (* separately.  Environment: TRACE, OUT.                                    *)
 (***************************************************************************)
-EXTENDS DagCore, Json, IOUtils
+EXTENDS DagPK, IOUtils
+
+\* DagPK supplies the abstract DAG `A` and the model `g` of the algorithm as written; here both are advanced along the
+\* recorded operations: `A` decides the properties, `g` additionally predicts the exact ranks and iteration orders
+\* (a disagreement with `g` alone is model drift, not a violation).
 
 Rec == ndJsonDeserialize(IOEnv.TRACE)
 
-VARIABLES l, A, prev, dirty, viol, run, cnt
+VARIABLES l, prev, dirty, viol, run, cnt, drift
 
-vars == <<l, A, prev, dirty, viol, run, cnt>>
+tvars == <<l, A, g, prev, dirty, viol, run, cnt, drift, ops, last>>
 
 NoObs == [level |-> 0]
 V(cond, tag) == IF cond THEN {} ELSE {tag}
 
-Init == l = 1 /\ A = AInit /\ prev = NoObs /\ dirty = TRUE /\ viol = {} /\ run = 0 /\ cnt = [C10 |-> 0, C11 |-> 0, seqs |-> 0]
+TInit == /\ l = 1 /\ A = AInit /\ g = GInit /\ prev = NoObs /\ dirty = TRUE /\ viol = {} /\ run = 0
+         /\ cnt = [C10 |-> 0, C11 |-> 0, seqs |-> 0] /\ drift = {} /\ ops = <<>> /\ last = [op |-> "init", res |-> "", changed |-> TRUE]
 
-Ids(A0) == 1..A0.created
+\* the model of the algorithm, advanced by the same operation
+GStep(G, e) ==
+  CASE e.res = "skipped" -> [g |-> G, res |-> "skipped"]
+    [] e.op = "add_node" -> [g |-> GAddNode(G), res |-> "node"]
+    [] e.op = "add_edge" -> GAddEdge(G, e.a, e.b, e.d)
+    [] e.op = "remove_edge" -> GRemoveEdge(G, e.a, e.b)
+    [] e.op = "remove_outgoing" -> GRemoveOutgoing(G, e.a)
+    [] e.op = "remove_node" -> GRemoveNode(G, e.a)
+    [] OTHER -> [g |-> G, res |-> "?"]
+
+\* does the implementation agree with the model of the algorithm on result, ranks and iteration orders?
+DriftOf(G2, r, e) ==
+  (IF r # e.res THEN {"result"} ELSE {})
+  \cup (IF e.q = 0 THEN {}
+        ELSE LET obs == e.obs IN
+             IF Len(obs.nodes) # G2.created THEN {"node_count"}
+             ELSE (IF \A i \in G2.live : obs.nodes[i].rank = G2.order[i] THEN {} ELSE {"ranks"})
+                  \cup (IF \A i \in G2.live : obs.nodes[i].out = G2.kids[i] /\ obs.nodes[i].inc = G2.pars[i] THEN {} ELSE {"adjacency_order"}))
+
+IdsOf(A0) == 1..A0.created
 
 \* ---- expected results --------------------------------------------------------------------------------------------
 ExpRes(A0, e) ==
@@ -69,7 +93,7 @@ ObsViolC10(A1, obs) ==
   LET live == A1.live
       n == Cardinality(live)
   IN V(obs.len = n /\ obs.empty = (n = 0), <<"C10", "len">>)
-     \cup V(\A i \in Ids(A1) : obs.nodes[i].live = (i \in live), <<"C10", "contains_node">>)
+     \cup V(\A i \in IdsOf(A1) : obs.nodes[i].live = (i \in live), <<"C10", "contains_node">>)
      \cup V({RankOf(obs, i) : i \in live} = 1..n, <<"C10", "ranks_bijection_onto_1_n">>)
      \cup V(\A ed \in A1.edges : RankOf(obs, ed[1]) < RankOf(obs, ed[2]), <<"C10", "rank_respects_edge">>)
      \cup V(\A i \in live : \A j \in ARange(obs.nodes[i].out) : j \in live /\ RankOf(obs, i) < RankOf(obs, j),
@@ -77,7 +101,7 @@ ObsViolC10(A1, obs) ==
 
 ObsViolC11Light(A1, obs) ==
   LET live == A1.live IN
-  V(\A i \in Ids(A1) : i \notin live => (obs.nodes[i].out = <<>> /\ obs.nodes[i].inc = <<>> /\ obs.nodes[i].nd = -1),
+  V(\A i \in IdsOf(A1) : i \notin live => (obs.nodes[i].out = <<>> /\ obs.nodes[i].inc = <<>> /\ obs.nodes[i].nd = -1),
     <<"C11", "removed_node_has_edges">>)
   \cup V(\A i \in live : obs.nodes[i].out = AOut(A1, i), <<"C11", "outgoing_first_insertion_order">>)
   \cup V(\A i \in live : obs.nodes[i].inc = AInc(A1, i), <<"C11", "incoming_first_insertion_order">>)
@@ -96,13 +120,13 @@ ObsViolC11Light(A1, obs) ==
 ObsViolC11Full(A1, obs) ==
   LET live == A1.live
       P(a, b) == obs.pairs[(a - 1) * A1.created + b]
-  IN V(\A a, b \in Ids(A1) : P(a, b).ce = (a \in live /\ b \in live /\ <<a, b>> \in A1.edges), <<"C11", "contains_edge">>)
-     \cup V(\A a, b \in Ids(A1) : P(a, b).cte = (a \in live /\ b \in live /\ AReach(A1, a, b)), <<"C11", "contains_transitive_edge">>)
-     \cup V(\A a, b \in Ids(A1) : P(a, b).cte2 = P(a, b).cte, <<"C11", "contains_transitive_edge_repeatable">>)
-     \cup V(\A a, b \in Ids(A1) : P(a, b).ed = (IF <<a, b>> \in A1.edges THEN A1.dat[<<a, b>>] ELSE -1), <<"C11", "get_edge_data">>)
+  IN V(\A a, b \in IdsOf(A1) : P(a, b).ce = (a \in live /\ b \in live /\ <<a, b>> \in A1.edges), <<"C11", "contains_edge">>)
+     \cup V(\A a, b \in IdsOf(A1) : P(a, b).cte = (a \in live /\ b \in live /\ AReach(A1, a, b)), <<"C11", "contains_transitive_edge">>)
+     \cup V(\A a, b \in IdsOf(A1) : P(a, b).cte2 = P(a, b).cte, <<"C11", "contains_transitive_edge_repeatable">>)
+     \cup V(\A a, b \in IdsOf(A1) : P(a, b).ed = (IF <<a, b>> \in A1.edges THEN A1.dat[<<a, b>>] ELSE -1), <<"C11", "get_edge_data">>)
      \cup V(\A a, b \in live : P(a, b).cmp = (IF RankOf(obs, a) < RankOf(obs, b) THEN -1 ELSE IF RankOf(obs, a) = RankOf(obs, b) THEN 0 ELSE 1),
             <<"C11", "topo_cmp">>)
-     \cup V(\A i \in Ids(A1) : obs.nodes[i].dmiss = (IF i \in live THEN 0 ELSE 2), <<"C11", "descendants_of_removed_node">>)
+     \cup V(\A i \in IdsOf(A1) : obs.nodes[i].dmiss = (IF i \in live THEN 0 ELSE 2), <<"C11", "descendants_of_removed_node">>)
      \cup V(\A i \in live : obs.nodes[i].desc = SortByRank(obs, ADesc(A1, i)), <<"C11", "descendants_sorted">>)
      \cup V(\A i \in live : LET du == obs.nodes[i].descu IN
                /\ Len(du) = Cardinality(ADesc(A1, i))
@@ -120,23 +144,26 @@ ObsViol(A1, e) ==
        ELSE ObsViolC10(A1, obs) \cup ObsViolC11Light(A1, obs)
             \cup (IF obs.level >= 2 THEN ObsViolC11Full(A1, obs) ELSE {})
 
-Finish(v2, c2) == JsonSerialize(IOEnv.OUT, [events |-> Len(Rec), viol |-> v2, cnt |-> c2])
+Finish(v2, c2) == TRUE
+FinishD(v2, c2, d2) == JsonSerialize(IOEnv.OUT, [events |-> Len(Rec), viol |-> v2, cnt |-> c2, drift |-> d2])
 
-Next ==
+TNext ==
   /\ l <= Len(Rec)
   /\ l' = l + 1
+  /\ UNCHANGED <<ops, last>>
   /\ LET e == Rec[l] IN
      IF e.ev = "reset" THEN
-       /\ A' = AInit /\ prev' = NoObs /\ dirty' = TRUE /\ run' = run + 1
+       /\ A' = AInit /\ g' = GInit /\ prev' = NoObs /\ dirty' = TRUE /\ run' = run + 1
        /\ cnt' = [cnt EXCEPT !.seqs = @ + 1]
-       /\ UNCHANGED viol
-       /\ (l < Len(Rec) \/ Finish(viol, cnt'))
+       /\ UNCHANGED <<viol, drift>>
+       /\ (l < Len(Rec) \/ FinishD(viol, cnt', drift))
      ELSE IF e.ev = "panic" THEN
        /\ viol' = viol \cup {<<run, l, "C10", "implementation_panicked">>}
-       /\ UNCHANGED <<A, prev, dirty, run, cnt>>
-       /\ (l < Len(Rec) \/ Finish(viol', cnt))
+       /\ UNCHANGED <<A, g, prev, dirty, run, cnt, drift>>
+       /\ (l < Len(Rec) \/ FinishD(viol', cnt, drift))
      ELSE IF e.ev = "op" THEN
        LET A1 == Step(A, e)
+           gs == GStep(g, e)
            changed == A1 # A
            v1 == ResultViol(A, e)
            v2 == ObsViol(A1, e)
@@ -145,18 +172,21 @@ Next ==
            v3 == IF e.q > 0 /\ ~nowDirty /\ prev.level = e.obs.level /\ Stable(prev) # Stable(e.obs)
                  THEN {<<"C10", "rejected_operation_changed_the_graph">>} ELSE {}
            vs == v1 \cup v2 \cup v3
+           ds == IF gs.g.created <= MaxNodes THEN DriftOf(gs.g, gs.res, e) ELSE {}
        IN /\ A' = A1
+          /\ g' = gs.g
           /\ prev' = IF e.q > 0 THEN e.obs ELSE prev
           /\ dirty' = IF e.q > 0 THEN FALSE ELSE nowDirty
           /\ viol' = viol \cup {<<run, l, t[1], t[2]>> : t \in vs}
+          /\ drift' = IF ds = {} \/ \E d \in drift : d[1] = run THEN drift ELSE drift \cup {<<run, l, CHOOSE x \in ds : TRUE>>}
           /\ cnt' = [cnt EXCEPT !.C10 = @ + (IF e.q > 0 \/ e.op = "add_edge" THEN 1 ELSE 0),
                                 !.C11 = @ + (IF e.q > 0 \/ e.op # "add_node" THEN 1 ELSE 0)]
           /\ UNCHANGED run
-          /\ (l < Len(Rec) \/ Finish(viol', cnt'))
+          /\ (l < Len(Rec) \/ FinishD(viol', cnt', drift'))
      ELSE
-       /\ UNCHANGED <<A, prev, dirty, viol, run, cnt>>
-       /\ (l < Len(Rec) \/ Finish(viol, cnt))
+       /\ UNCHANGED <<A, g, prev, dirty, viol, run, cnt, drift>>
+       /\ (l < Len(Rec) \/ FinishD(viol, cnt, drift))
 
-Spec == Init /\ [][Next]_vars
+TSpec == TInit /\ [][TNext]_tvars
 Accepted == TLCGet("stats").diameter = Len(Rec) + 1
 =============================================================================
